@@ -19,7 +19,8 @@ RULE = ('Every ordered pair of RDM vectors over a value alphabet ({0,1,2}^3, {0,
         'input representation and condition permutation; one evaluation = one (i,j) entry of a '
         'real compare() call judged against the reference definition (or one algebraic law '
         'instance). Non-trivial = the measure is defined for the pair (no zero-norm / constant '
-        'vector); distinct = distinct (block descriptor, i, j).')
+        'vector); distinct = distinct (block descriptor, i, j).'
+        ' Integer-valued alphabets are also run as int64 / int32 / float32 typed stacks on either side.')
 ASSUMPTIONS = ['reference definitions in mc/ref/measures.py are correct (cross-checked with scipy in selftest)',
                'values outside the enumerated alphabets are represented by fixed generic fills only',
                'whitened measures go through the library\'s conjugate-gradient solve: tolerance 1e-4 (largest deviation seen over 8 seeds: 4e-6)']
